@@ -4,6 +4,7 @@ import (
 	vrt "github.com/wader/fq/internal/zzvrt"
 	"github.com/wader/fq/pkg/bitio"
 	"github.com/wader/fq/pkg/decode"
+	"github.com/wader/fq/pkg/ranges"
 	"github.com/wader/fq/pkg/scalar"
 	"github.com/wader/gojq"
 )
@@ -216,3 +217,35 @@ func VerifToBitsNestedRoot() { zzVerifToBits(6) }
 func VerifToBitsLoop()       { zzVerifToBits(7) }
 func VerifToBitsRootArray()  { zzVerifToBits(9) }
 func VerifToBitsErrors()     { zzVerifToBits(10) }
+
+// VerifToBitsRangedRoot: a format decoded at a sub-range of a buffer that does not
+// start at bit 0 (what `.frames[1] | mp3_frame` does: _decode passes the binary's
+// range as Options.Range): tobits/tobytes/._bits of the root and of its fields
+// are the input bits of their reported ranges.
+func VerifToBitsRangedRoot() {
+	buf := vrt.Bytes("buf", 4)
+	off := int64(vrt.IntRange("off", 0, 17))
+	fn := func(d *decode.D) any {
+		d.FieldU8("a")
+		d.FieldRawLen("b", d.BitsLeft())
+		return nil
+	}
+	root, _, err := decode.Decode(nil, bitio.NewBitReader(buf, -1), decode.FormatFn(fn),
+		decode.Options{IsRoot: true, FillGaps: true, Range: ranges.Range{Start: off, Len: 32 - off}})
+	vrt.Assert(root != nil && err == nil, "ranged decode succeeds")
+	vrt.Assert(root.Range.Start == off && root.Range.Len == 32-off, "ranged decode: the root reports the decoded range")
+	c := root.V.(*decode.Compound)
+	vs := []*decode.Value{root, c.Children[0], c.Children[1]}
+	v := vs[vrt.Choice("value", 3)]
+	b, berr := decodeValueBase{dv: v}.ToBinary()
+	vrt.Assert(berr == nil, "ranged decode: tobytes succeeds")
+	bb := b
+	bb.unit = 1
+	got, k, rerr := zzReadAll(bb)
+	vrt.Assert(rerr == nil && k == v.Range.Len, "ranged decode: tobits length is the value's range length")
+	vrt.Assert(zzSameBits(got, k, 0, buf, v.Range.Start), "ranged decode: tobits is exactly the input bits of the value's reported range")
+	kb, isB := decodeValueBase{dv: v}.JQValueKey("_bits").(Binary)
+	vrt.Assert(isB, "ranged decode: ._bits is a binary")
+	got, k, rerr = zzReadAll(kb)
+	vrt.Assert(rerr == nil && k == v.Range.Len && zzSameBits(got, k, 0, buf, v.Range.Start), "ranged decode: ._bits is exactly the input bits of the value's reported range")
+}
